@@ -28,6 +28,7 @@ FLOORS = {"epochs_checked": {"quick": 1200, "thorough": 20000}, "readd_epochs": 
           "instance_runs_compared": {"quick": 8000, "thorough": 120000}, "output_ticks_compared": {"quick": 2000, "thorough": 35000},
           "timer_runs_in_instances": {"quick": 300, "thorough": 5000}, "map_key_throws": {"quick": 50, "thorough": 800}, "two_dictionary_epochs": {"quick": 80, "thorough": 1200},
           "key_left_one_dictionary_only": {"quick": 40, "thorough": 600},
+          "inner_maps_created_over_keys_added_in_different_cycles": {"quick": 20, "thorough": 300},
           "map_other_key_runs_compared": {"quick": 700, "thorough": 10000}}
 BATCH = 15
 
@@ -176,9 +177,92 @@ def gen_case10(rng, name, idx):
     return c
 
 
+def gen_nested_map_case(rng, name):
+    """A map_ whose instances each run an INNER map_ over a shared dictionary handed to them as a whole: an inner map is created
+    whenever an outer key appears (late, or again after a removal) and then has to pick up every key the shared dictionary
+    holds at that moment, whenever those keys were added."""
+    start, end = 0, rng.choice([20, 30, 45])
+    c = Case(name, start, end)
+    c.cscripts[1] = gen_key_history(rng, start, end, rng.choice([2, 3, 5]))
+    shared = gen_key_history(rng, start, end, rng.choice([3, 5, 8]))
+    if rng.random() < 0.5:
+        shared = [e for e in shared if e.split("|")[1] != "c"]
+    c.cscripts[2] = shared
+    c.graphs["fn0"] = [S("r", "map", "p1", "p0", fn="fn2:1"), S("", "RET", "r")]
+    c.graphs["fn1"] = [S("o", "add2", "p0", "p1", uid=100), S("", "RET", "o")]
+    c.graphs["main"] = [S("d", "csrc", shape="tsd", uid=1), S("sh", "csrc", shape="tsd", uid=2),
+                        S("m", "map", "d", "sh", fn="fnd:0", passthrough=1), S("", "cmirror", "m", uid=11)]
+    c.meta["kind"] = "nested_map"
+    return c
+
+
+def check_nested_map(case, tr):
+    res = Result(signature=case.text().split("\n", 1)[1])
+    run = tr.runs[0]
+    if tr.build_error or run.error:
+        res.violations.append(Violation(f"build/run failed: {tr.build_error or run.error}"))
+        return res
+    wl = write_log(run)
+    w1, w2 = dict(wl.get(1, [])), dict(wl.get(2, []))
+    mirror = {t: d for t, d, _ in parse_dumps(run).get(11, [])}
+
+    def apply(state, ops):
+        for op in ops:
+            if op == "c":
+                state.clear()
+            elif op.startswith("x["):
+                state.pop(int(op[2:op.index("]")]), None)
+            else:
+                state[int(op[1:op.index("]")])] = int(op[op.index("=") + 1:])
+
+    outer, shared, prev = {}, {}, {}
+    V, cmp_, late, multi = [], 0, 0, 0
+    added_at = {}
+    for t in range(case.start, case.end):
+        new_outer = set()
+        if t in w1:
+            before = set(outer)
+            apply(outer, w1[t])
+            new_outer = set(outer) - before
+        if t in w2:
+            before = set(shared)
+            apply(shared, w2[t])
+            for k in set(shared) - before:
+                added_at[k] = t
+            for k in before - set(shared):
+                added_at.pop(k, None)
+        for a in new_outer:
+            if shared and t > case.start:
+                late += 1
+                if len({added_at[k] for k in shared}) >= 2:
+                    multi += 1          # the shared keys alive at that moment were added in different cycles
+        exp = {a: {k: (3 * v + 5 * x + 1) % M.WRAP for k, v in shared.items()} for a, x in outer.items() if shared}
+        d = mirror.get(t)
+        if d is None:
+            if exp != prev:
+                V.append(f"t={t}: the nested map output did not tick although it must change from {str(prev)[:100]} to {str(exp)[:100]}")
+            prev = exp
+            continue
+        got = {int(a): {int(k): int(c["val"]) for k, c in v["items"].items() if c["v"]} for a, v in d["items"].items()}
+        got = {a: inner for a, inner in got.items() if inner}
+        cmp_ += 1
+        if got != exp:
+            bad = next((a for a in set(got) | set(exp) if got.get(a) != exp.get(a)), None)
+            V.append(f"t={t}: outer key {bad}: inner map output {str(got.get(bad))[:120]} != one instance per key of the shared dictionary "
+                     f"{str(exp.get(bad))[:120]}")
+        prev = exp
+    for m in V[:5]:
+        res.violations.append(Violation(m))
+    res.counters = {"nested_map_ticks_compared": cmp_, "inner_maps_created_over_nonempty_dict": late,
+                    "inner_maps_created_over_keys_added_in_different_cycles": multi}
+    res.nontrivial = late >= 1
+    return res
+
+
 def generate(rng, tier, seed):
     n = 200 if tier == "quick" else 3000
     cases = [gen_case10(rng, f"c10_{seed}_{k}", k) for k in range(n)]
+    cases += [gen_nested_map_case(rng, f"c10n_{seed}_{k}") for k in range(n // 5)]
     # failure isolation between keys: the keyed-map fault pairs of C15 (fault-free twin + per-key captured faults)
     from .c15 import gen_map_pair
     k = got = 0
@@ -304,6 +388,8 @@ def check(case, tr):
     if case.meta.get("how") == "map":
         from .c15 import check_map
         return check_map(case, tr)
+    if case.meta.get("kind") == "nested_map":
+        return check_nested_map(case, tr)
     run = tr.runs[0]
     if run.error:
         res.violations.append(Violation(f"run failed: {run.error[:300]}"))
